@@ -55,10 +55,16 @@ int shim_cache_entry(void *c, unsigned x, unsigned y, unsigned i, unsigned *cat_
 }
 void shim_free_cache(void *c) { delete (cache_type *)c; }
 unsigned shim_sizeof_item() { return sizeof(parsing::cell_item); }
+static config g_config;
+/* the config object parse_sentence was given, as it is after the call (parsing.pyx passes one config to every sentence of a run: writes persist) */
+void shim_config_after(unsigned *num_tags, float *unary_penalty, float *beta, int *use_beta, unsigned *pruning_size, unsigned *nbest, unsigned *max_step) {
+    *num_tags = g_config.num_tags; *unary_penalty = g_config.unary_penalty; *beta = g_config.beta; *use_beta = g_config.use_beta ? 1 : 0;
+    *pruning_size = g_config.pruning_size; *nbest = g_config.nbest; *max_step = g_config.max_step;
+}
 int shim_parse(float *tag, float *dep, unsigned length, unsigned *roots, unsigned nroots, py_rules_cb bin, py_rules_cb un, py_fin_cb fin,
                void *cache, unsigned num_tags, float unary_penalty, float beta, int use_beta, unsigned pruning_size, unsigned nbest, unsigned max_step) {
     std::unordered_set<unsigned> rs(roots, roots + nroots);
-    config c;
+    config &c = g_config;
     c.num_tags = num_tags; c.unary_penalty = unary_penalty; c.beta = beta; c.use_beta = (use_beta != 0);
     c.pruning_size = pruning_size; c.nbest = nbest; c.max_step = max_step;
     g_fin = fin;
@@ -137,6 +143,8 @@ def lib():
     L.shim_parse.argtypes = [ctypes.c_void_p, ctypes.c_void_p, ctypes.c_uint, ctypes.POINTER(ctypes.c_uint), ctypes.c_uint, RULES_CB, RULES_CB, FIN_CB,
                              ctypes.c_void_p, ctypes.c_uint, ctypes.c_float, ctypes.c_float, ctypes.c_int, ctypes.c_uint, ctypes.c_uint, ctypes.c_uint]
     L.shim_parse.restype = ctypes.c_int
+    L.shim_config_after.argtypes = [ctypes.POINTER(ctypes.c_uint), ctypes.POINTER(ctypes.c_float), ctypes.POINTER(ctypes.c_float), ctypes.POINTER(ctypes.c_int),
+                                    ctypes.POINTER(ctypes.c_uint), ctypes.POINTER(ctypes.c_uint), ctypes.POINTER(ctypes.c_uint)]
     if L.shim_sizeof_item() != ctypes.sizeof(CellItem):
         raise RuntimeError('ctypes layout of cell_item differs from the compiled one')
     L.have_hook = have_hook
@@ -368,6 +376,17 @@ def pyx_module():
                               c_config.pruning_size, c_config.nbest, c_config.max_step)
         if L.have_hook:
             L.shim_set_pop_hook(POP_CB(0))
+        # parsing.pyx hands the same config object to every sentence of a run: what parse_sentence wrote into it stays written
+        nt, up, be, ub, ps, nb, ms = (ctypes.c_uint(), ctypes.c_float(), ctypes.c_float(), ctypes.c_int(), ctypes.c_uint(), ctypes.c_uint(), ctypes.c_uint())
+        L.shim_config_after(nt, up, be, ub, ps, nb, ms)
+        for name, before, after in (('num_tags', c_config.num_tags, nt.value), ('use_beta', 1 if c_config.use_beta else 0, ub.value),
+                                    ('pruning_size', c_config.pruning_size, ps.value), ('nbest', c_config.nbest, nb.value), ('max_step', c_config.max_step, ms.value)):
+            if before != after:
+                setattr(c_config, name, bool(after) if name == 'use_beta' else after)
+        if ctypes.c_float(c_config.unary_penalty).value != up.value:
+            c_config.unary_penalty = up.value
+        if ctypes.c_float(c_config.beta).value != be.value:
+            c_config.beta = be.value
         if errors:
             raise RuntimeError(errors[0])
         if status < 0:
